@@ -1,5 +1,6 @@
 import ErgoVerif.Lemmas.EdfTop
 import ErgoVerif.Lemmas.EdfSafe
+import ErgoVerif.Lemmas.EdfReenc2
 import ErgoVerif.Model.EdfAlloc
 import ErgoVerif.Props.C11
 /-!
@@ -103,5 +104,88 @@ theorem C16_alloc_counterexample : ¬ C16_alloc_full := by
   have := h o0 8 pktD23
   rw [C16_alloc_d23.1] at this
   simp [pktD23] at this
+
+-- ------------------------------------------------------------------------------------------------
+-- a value that decodes re-encodes to bytes that decode to the same value
+-- ------------------------------------------------------------------------------------------------
+
+theorem o0_decside : DecSideOK o0 := by
+  refine ⟨by simp [o0], by simp [o0], by simp [o0], ?_⟩
+  intro nm t h
+  simp only [o0] at h
+  split at h
+  · cases h; exact ⟨rfl, by simp [zsTy]⟩
+  · split at h
+    · cases h; exact ⟨rfl, by simp [pTy]⟩
+    · simp at h
+
+theorem topNorm_cases (t0 : Ty) (v0 : Val) (t : Ty) (v : Val) (h : topNorm t0 v0 = some (t, v)) :
+    (t0 = .any ∧ v0 = .any t v) ∨ (t0 ≠ .any ∧ ¬ (t0 = .error ∧ v0 = .nil) ∧ t = t0 ∧ v = v0) := by
+  cases t0 <;> cases v0 <;> simp [topNorm] at h <;> (obtain ⟨rfl, rfl⟩ := h) <;> simp
+
+def C16_reencode_full : Prop :=
+  ∀ (o : Opts) (fuel : Nat) (bs : Bytes) (t : Ty) (v : Val) (rest : Bytes), CachesConsistent o → DecSideOK o →
+    bs.length < 4294967295 → decodeRaw o fuel bs = .ok (some (t, v), rest) →
+    ∃ bs', encode o t v = some bs' ∧ decodeRaw o fuel bs' = .ok (some (t, v), [])
+
+/-- `[1]ZS` followed by one more byte decodes (the packet is not empty when the array decoder starts); the value
+    re-encodes to the descriptor alone, which no longer decodes (zero-width elements, the defect of C11/F2) -/
+def pktZw : Bytes := [130, 0, 16, 158, 0, 0, 0, 1, 131, 0, 8, 0x23, 0x6d, 0x61, 0x69, 0x6e, 0x2f, 0x5a, 0x53, 0]
+
+theorem C16_reencode_witness :
+    decodeRaw o0 4 pktZw = .ok (some (.array 1 zsTy, .list (.cons (.list .nil) .nil)), [0]) ∧
+    encode o0 (.array 1 zsTy) (.list (.cons (.list .nil) .nil)) = some (pktZw.take 19) ∧
+    decodeRaw o0 4 (pktZw.take 19) = .err := by
+  refine ⟨by decide, by decide, by decide⟩
+
+theorem C16_reencode_counterexample : ¬ C16_reencode_full := by
+  intro h
+  obtain ⟨bs', h1, h2⟩ := h o0 4 pktZw _ _ _ o0_consistent o0_decside (by decide) C16_reencode_witness.1
+  rw [C16_reencode_witness.2.1] at h1
+  cases h1
+  rw [C16_reencode_witness.2.2] at h2
+  cases h2
+
+/-- Outside the defect regions (`Good`, see `Props/C11`): whatever edf.Decode returns for a packet shorter than
+    4 GiB can be encoded again, and those bytes decode to the same value of the same type with nothing left over. -/
+theorem C16_reencode_partial (o : Opts) (hc : CachesConsistent o) (hd : DecSideOK o) (fuel : Nat) (bs : Bytes)
+    (t : Ty) (v : Val) (rest : Bytes) (hL : bs.length < 4294967295)
+    (h : decodeRaw o fuel bs = .ok (some (t, v), rest))
+    (hdesc : DescOK o t) (hl : (encTy o t).length < 65536) (hg : Good o t v) :
+    ∃ bs', encode o t v = some bs' ∧ decodeRaw o fuel bs' = .ok (some (t, v), []) := by
+  unfold decodeRaw at h
+  split at h
+  · simp at h
+  · rename_i t0 r0 dt hgd
+    obtain ⟨henc0, hlt⟩ := getDecoder_inv o hd true bs t0 r0 dt hgd
+    split at h
+    · rename_i v0 r1 hv
+      simp at h
+      obtain ⟨hn, rfl⟩ := h
+      obtain ⟨hdep, _, he⟩ := dec_inv o hd fuel dt t0 r0 v0 r1 hv (by omega)
+      -- (t, v) is the normalised top value; it is encodable, at a depth the fuel covers
+      have key : (encode o t v).isSome = true ∧ v.depth ≤ fuel := by
+        rcases topNorm_cases t0 v0 t v hn with ⟨rfl, rfl⟩ | ⟨h1, h2, rfl, rfl⟩
+        · simp only [Val.depth] at hdep
+          refine ⟨?_, by omega⟩
+          have : encode o t v = encB o .any (.any t v) := by simp [encode, encB]
+          rw [this]; exact he
+        · refine ⟨?_, hdep⟩
+          have h3 : (t == Ty.error && v == Val.nil) = false := by
+            cases e1 : (t == Ty.error) <;> cases e2 : (v == Val.nil) <;> simp_all
+          cases hb : encB o t v with
+          | none => simp [hb] at he
+          | some b => simp [encode, henc0, h1, h3, hb]
+      obtain ⟨k1, k2⟩ := key
+      cases hb : encode o t v with
+      | none => simp [hb] at k1
+      | some bs' =>
+        refine ⟨bs', rfl, ?_⟩
+        have := decodeRaw_encode o hc t v bs' [] fuel hb hdesc hl hg k2
+        simpa using this
+    · simp at h
+    · simp at h
+  · simp at h
+  · simp at h
 
 end ErgoVerif.Props.C16
